@@ -60,6 +60,7 @@ template <class T> static void run_T(Choice &c, Ctx &cx)
         if (ilu) { apply_ilu(io, e.so); e.so.IterRefine = NOREFINE; }
         if (cplx && o.nr && o.trans == CONJ && cx.is_known("F07")) e.so.Trans = TRANS;   // no solve here (nrhs=0); keep clear of the known class anyway
         if (o.colperm == MY_PERMC) e.perm_c = o.my_perm_c;
+        if (ilu && cx.is_known("F-MC64") && mc64_breaks_on(e)) { cx.exclude("F-MC64"); cx.label("F-MC64:not-a-bijection(direct ldperm call on the driver's input)"); vf_purge(); return; }
         e.bind();
         if (e.call()) {
             if (ilu) { cx.label("ilu-breakdown(C15)"); vf_purge(); return; }   // an aborting ILU is judged by C15
